@@ -12,7 +12,39 @@ struct ZooGenCfg
 	bool allowEmpty = true;      // KF-XML-EMPTY-CONTAINER: false for XML in 63 of 64 runs
 	bool smartPointersSet = false;
 	bool nonEmptyStrings = false;
+	int jumboMember = -1;        // >= 0: this sequence member gets a size around the library's estimate cap (1024); see DrawJumbo
+	uint32_t jumboOneIn = 1;     // the member is made big in 1 of N generated values (histories mix big and small states)
 };
+
+// sizes on both sides of 1024 = CMsgPackScopeBase::MaxEstimatedSize, the point where a container can no longer trust the announced size
+constexpr int kJumboMembers = 14;
+inline int DrawJumbo(Source& s, Lane l, uint32_t oneIn) { return s.chance(l, 1, oneIn) ? static_cast<int>(s.draw(l, kJumboMembers)) : -1; }
+inline const char* JumboName(int m) { static const char* n[] = { "vec", "deq", "fwd", "val", "que", "stk", "pq", "vbool", "vo", "bin", "vv", "lst", "set", "vobj" }; return m >= 0 && m < kJumboMembers ? n[m] : "none"; }
+
+inline void MakeJumbo(Source& s, Lane l, Zoo& z, int member)
+{
+	static const uint32_t sizes[] = { 1023, 1024, 1025, 1026, 1100, 2049 };
+	const uint32_t n = s.pick(l, sizes);
+	const int32_t base = static_cast<int32_t>(s.draw(l, 1000));
+	auto v = [&](uint32_t i) { return base + static_cast<int32_t>(i); };
+	switch (member)
+	{
+	case 0: z.vec.clear(); for (uint32_t i = 0; i < n; ++i) z.vec.push_back(v(i)); break;
+	case 1: z.deq.clear(); for (uint32_t i = 0; i < n; ++i) z.deq.push_back(v(i)); break;
+	case 2: z.fwd.clear(); for (uint32_t i = 0; i < n; ++i) z.fwd.push_front(v(i)); break;
+	case 3: z.val.resize(n); for (uint32_t i = 0; i < n; ++i) z.val[i] = v(i); break;
+	case 4: z.que = {}; for (uint32_t i = 0; i < n; ++i) z.que.push(v(i)); break;
+	case 5: z.stk = {}; for (uint32_t i = 0; i < n; ++i) z.stk.push(v(i)); break;
+	case 6: z.pq = {}; for (uint32_t i = 0; i < n; ++i) z.pq.push(v(i)); break;
+	case 7: z.vbool.clear(); for (uint32_t i = 0; i < n; ++i) z.vbool.push_back(((i * 2654435761u + static_cast<uint32_t>(base)) >> 7) & 1); break;
+	case 8: z.vo.clear(); for (uint32_t i = 0; i < n; ++i) { if (i % 5 == 3) z.vo.emplace_back(std::nullopt); else z.vo.emplace_back(v(i)); } break;
+	case 9: z.bin.clear(); for (uint32_t i = 0; i < n; ++i) z.bin.push_back(static_cast<unsigned char>(v(i))); break;
+	case 10: { std::vector<int32_t> in; for (uint32_t i = 0; i < n; ++i) in.push_back(v(i)); z.vv.insert(z.vv.begin(), in); break; }
+	case 11: z.lst.clear(); for (uint32_t i = 0; i < n; ++i) z.lst.push_back("s" + std::to_string(v(i))); break;
+	case 12: z.set.clear(); for (uint32_t i = 0; i < n; ++i) z.set.insert(v(i)); break;
+	default: z.vobj.clear(); for (uint32_t i = 0; i < n; ++i) { Inner in; in.a = v(i); in.b = "o" + std::to_string(i % 7); z.vobj.push_back(in); } break;
+	}
+}
 
 inline uint32_t ZLen(Source& s, Lane l, const ZooGenCfg& g)
 {
@@ -129,6 +161,7 @@ inline void GenZoo(Source& s, Lane l, Zoo& z, const ZooGenCfg& g)
 		if (g.nonEmptyStrings) { if (r.name.empty()) r.name = "n"; if (r.wide.empty()) r.wide = u"n"; }
 		z.rows.push_back(r);
 	}
+	if (g.jumboMember >= 0 && g.archive != A_CSV && s.chance(l, 1, g.jumboOneIn)) MakeJumbo(s, l, z, g.jumboMember);
 	z.csvRoot = g.csvRoot >= 0 ? g.csvRoot : (g.archive == A_CSV ? static_cast<int>(s.draw(l, 4)) : 0);
 	if (z.csvRoot == 1) z.rowsList.assign(z.rows.begin(), z.rows.end());
 	else if (z.csvRoot == 2) z.rowsDeque.assign(z.rows.begin(), z.rows.end());
@@ -253,6 +286,12 @@ inline CallResult LoadZooWith(ArchiveOps& ops, Zoo& z, const std::string& bytes,
 			const std::string prefix = bytes.substr(0, faults.eofAt);
 			r = Guarded([&] { FailWindow fw; ops.LoadZoo(z, o, IoIn{ &prefix, nullptr }); });
 			if (info) info->faultFired = true;
+		}
+		else if (c.readOnlyMem)
+		{
+			ReadOnlyCopy ro(bytes);
+			const std::string_view v = ro.view();
+			r = Guarded([&] { FailWindow fw; ops.LoadZoo(z, o, IoIn{ nullptr, nullptr, &v }); });
 		}
 		else r = Guarded([&] { FailWindow fw; ops.LoadZoo(z, o, IoIn{ &bytes, nullptr }); });
 	}
